@@ -2,6 +2,7 @@ package main
 
 import (
 	"reflect"
+	"strconv"
 	"strings"
 
 	"github.com/antlr4-go/antlr/v4"
@@ -94,22 +95,152 @@ func collectSortItems(v any) []*cypher.SortItem {
 	return out
 }
 
-// refSexp renders a parsed (or rewritten) model for the Lean reference with the sort directions of the TEXT. When the model does not have as
+// textRange: the bounds of one variable-length relationship pattern as the TEXT spells them: `*` (none, none), `*n` (n, n — exactly n hops),
+// `*n..` (n, none), `*..m` (none, m), `*n..m` (n, m).
+type textRange struct {
+	lo, hi *int64
+}
+
+// rangesFromText: the range literal of every relationship pattern that has one, in document order, read from the generated parser's tree.
+func rangesFromText(text string) (out []textRange, ok bool) {
+	lexer := parser.NewCypherLexer(antlr.NewInputStream(text))
+	el := &countingErrorListener{DefaultErrorListener: antlr.NewDefaultErrorListener()}
+	lexer.RemoveErrorListeners()
+	lexer.AddErrorListener(el)
+	ts := antlr.NewCommonTokenStream(lexer, antlr.TokenDefaultChannel)
+	p := parser.NewCypherParser(ts)
+	p.RemoveErrorListeners()
+	p.AddErrorListener(el)
+	tree := p.OC_Cypher()
+	if el.n > 0 {
+		return nil, false
+	}
+	good := true
+	var walk func(t antlr.Tree)
+	walk = func(t antlr.Tree) {
+		ctx, isRule := t.(antlr.ParserRuleContext)
+		if !isRule {
+			return
+		}
+		if ctx.GetRuleIndex() == parser.CypherParserRULE_oC_RangeLiteral {
+			var r textRange
+			seenDots := false
+			var ints []int64
+			var intAfterDots []bool
+			for _, c := range ctx.GetChildren() {
+				switch n := c.(type) {
+				case antlr.TerminalNode:
+					if n.GetText() == ".." {
+						seenDots = true
+					}
+				case antlr.ParserRuleContext:
+					if n.GetRuleIndex() == parser.CypherParserRULE_oC_IntegerLiteral {
+						v, err := strconv.ParseInt(n.GetText(), 0, 64)
+						if err != nil {
+							good = false
+						}
+						ints = append(ints, v)
+						intAfterDots = append(intAfterDots, seenDots)
+					}
+				}
+			}
+			for i := range ints {
+				v := ints[i]
+				if intAfterDots[i] {
+					r.hi = &v
+				} else {
+					r.lo = &v
+				}
+			}
+			if !seenDots && r.lo != nil {
+				v := *r.lo
+				r.hi = &v // `*n`: exactly n hops
+			}
+			out = append(out, r)
+			return
+		}
+		for _, c := range ctx.GetChildren() {
+			walk(c)
+		}
+	}
+	walk(tree)
+	return out, good
+}
+
+// collectRanges: the ranges of the relationship patterns of a parsed model that have one, in document order.
+func collectRanges(v any) []*cypher.PatternRange {
+	var out []*cypher.PatternRange
+	seen := map[uintptr]bool{}
+	var walk func(rv reflect.Value)
+	walk = func(rv reflect.Value) {
+		switch rv.Kind() {
+		case reflect.Ptr:
+			if rv.IsNil() || seen[rv.Pointer()] {
+				return
+			}
+			seen[rv.Pointer()] = true
+			if pr, is := rv.Interface().(*cypher.PatternRange); is {
+				out = append(out, pr)
+				return
+			}
+			walk(rv.Elem())
+		case reflect.Interface:
+			if !rv.IsNil() {
+				walk(rv.Elem())
+			}
+		case reflect.Struct:
+			for i := 0; i < rv.NumField(); i++ {
+				if rv.Type().Field(i).IsExported() {
+					walk(rv.Field(i))
+				}
+			}
+		case reflect.Slice, reflect.Array:
+			for i := 0; i < rv.Len(); i++ {
+				walk(rv.Index(i))
+			}
+		}
+	}
+	walk(reflect.ValueOf(v))
+	return out
+}
+
+// refSexp renders a parsed (or rewritten) model for the Lean reference with the sort directions AND the relationship range bounds of the TEXT. When the model does not have as
 // many sort items as the text (a rewrite dropped or duplicated one) the model's own directions are kept.
 func refSexp(text string, model any) string {
 	items := collectSortItems(model)
 	asc, ok := sortDirectionsFromText(text)
 	if !ok || len(asc) != len(items) {
-		return ToSexp(model)
+		return refSexpRanges(text, model)
 	}
 	saved := make([]bool, len(items))
 	for i, it := range items {
 		saved[i] = it.Ascending
 		it.Ascending = asc[i]
 	}
-	s := ToSexp(model)
+	s := refSexpRanges(text, model)
 	for i, it := range items {
 		it.Ascending = saved[i]
+	}
+	return s
+}
+
+// refSexpRanges: the S-expression with the range bounds of the text. When the model does not have as many ranges as the text (a rewrite added
+// or removed an expansion) the model's own bounds are kept.
+func refSexpRanges(text string, model any) string {
+	ranges := collectRanges(model)
+	trs, ok := rangesFromText(text)
+	if !ok || len(trs) != len(ranges) {
+		return ToSexp(model)
+	}
+	type sv struct{ lo, hi *int64 }
+	saved := make([]sv, len(ranges))
+	for i, r := range ranges {
+		saved[i] = sv{r.StartIndex, r.EndIndex}
+		r.StartIndex, r.EndIndex = trs[i].lo, trs[i].hi
+	}
+	s := ToSexp(model)
+	for i, r := range ranges {
+		r.StartIndex, r.EndIndex = saved[i].lo, saved[i].hi
 	}
 	return s
 }
